@@ -37,9 +37,9 @@ fn pick_rate(r: &mut Rng) -> usize {
 
 fn small_stream(r: &mut Rng) -> Option<(Vec<u8>, String, usize)> {
     let mut c = sig::gen_valid_cfg(r);
-    let ch = *r.pick(&[1usize, 1, 2, 2, 3]);
-    let bps = *r.pick(&[8usize, 16, 16, 24]);
-    let bs = *r.pick(&[32usize, 64, 64, 96, 128, 192, 255, 256, 257, 576]);
+    let ch = *r.pick(&[1usize, 1, 2, 2, 2, 3, 4, 5, 6, 7, 8, 8]);
+    let bps = *r.pick(&[8usize, 12, 16, 16, 20, 24]);
+    let bs = if ch > 3 { *r.pick(&[32usize, 64, 96]) } else { *r.pick(&[32usize, 64, 64, 96, 128, 192, 255, 256, 257, 576]) };
     let n = bs + r.below((bs + 20) as u64) as usize;
     let s = sig::gen_signal(r, ch, bps, n);
     c.bs = bs;
